@@ -14,8 +14,8 @@
 (*             nothing but that record's options                          *)
 EXTENDS Integers, Sequences, TLC, Reader
 CONSTANTS MaxTok, RawLen
-VARIABLES file, rs
-vars == <<file, rs>>
+VARIABLES file, rs, phase, cnt
+vars == <<file, rs, phase, cnt>>
 NoTables == [none |-> [enc |-> [x \in {} |-> <<>>], dec |-> [x \in {} |-> 0]]]
 CMap == << [name |-> <<117,116,102,45,56>>, codec |-> C("utf-8")],
            [name |-> <<117,116,102,45,49,54>>, codec |-> C("utf-16")],
@@ -52,28 +52,27 @@ Tokens == <<
   (* 14 unterminated tail "#.ch" *)
   <<35,46,99,104>>
 >>
-RECURSIVE FilesOf(_)
-FilesOf(n) == IF n = 0 THEN {<<>>} ELSE LET s == FilesOf(n - 1) IN
-                s \cup {f \o Tokens[t] : f \in s, t \in 1..Len(Tokens)}
 Alphabet == {35, 46, 58, 32, 61, 44, 10, 13, 97, 49, 195}
-RECURSIVE RawOf(_)
-RawOf(n) == IF n = 0 THEN {<<>>} ELSE LET s == RawOf(n - 1) IN s \cup {Append(f, b) : f \in s, b \in Alphabet}
-Files == FilesOf(MaxTok) \cup (IF RawLen > 0 THEN RawOf(RawLen) ELSE {})
-
-Init == file \in Files /\ rs = R0
-Next == rs.status = "running" /\ rs' = RStep(file, CMap, rs) /\ UNCHANGED file
+(* The file is BUILT by exploration (phase "tok": append a token; phase "raw": append a byte), so
+   that TLC's workers share the work; reading starts when the phase becomes "read". *)
+Init == file = <<>> /\ rs = R0 /\ phase \in {"tok", "raw"} /\ cnt = 0
+AddTok == \E t \in 1..Len(Tokens) : phase = "tok" /\ cnt < MaxTok /\ file' = file \o Tokens[t] /\ cnt' = cnt + 1 /\ UNCHANGED <<rs, phase>>
+AddByte == \E b \in Alphabet : phase = "raw" /\ cnt < RawLen /\ file' = Append(file, b) /\ cnt' = cnt + 1 /\ UNCHANGED <<rs, phase>>
+Start == phase \in {"tok", "raw"} /\ phase' = "read" /\ UNCHANGED <<file, rs, cnt>>
+Read == phase = "read" /\ rs.status = "running" /\ rs' = RStep(file, CMap, rs) /\ UNCHANGED <<file, phase, cnt>>
+Next == AddTok \/ AddByte \/ Start \/ Read
 Spec == Init /\ [][Next]_vars
 
 (* C08 "terminates": under weak fairness of the step every run of the reader ends *)
-FairSpec == Spec /\ WF_vars(Next)
-Terminates == <>(rs.status # "running")
+FairSpec == Spec /\ WF_vars(Read) /\ WF_vars(Start)
+Terminates == <>(phase = "read" /\ rs.status # "running")
 
 Total == rs.status \in {"running", "done", "error", "short", "unspec"}
-Progress == [][rs'.status # "running" \/ rs'.pos > rs.pos]_vars
+Progress == [][phase = "read" => (rs'.status # "running" \/ rs'.pos > rs.pos)]_vars
 OrderLang == LegalOrder([k \in 1..Len(rs.recs) |-> rs.recs[k].id])
 ErrRange == rs.status \in {"error", "short"} => 0 <= rs.lo /\ rs.lo <= rs.hi /\ rs.lo <= PhysLines(file)
 LinesUp == \A k \in 1..(Len(rs.recs) - 1) : rs.recs[k].line < rs.recs[k+1].line
-Stepwise == rs.status # "running" =>
+Stepwise == (phase = "read" /\ rs.status # "running") =>
               LET r == ReadFile(file, CMap) IN r.status = rs.status /\ r.recs = rs.recs /\ r.lo = rs.lo
 PosOK == rs.pos >= 1 /\ rs.pos <= Len(file) + 1
 
@@ -89,7 +88,7 @@ InsertOpt(f, p, atEnd) ==
     ELSE SubSeq(f, 1, p - 1) \o SubSeq(line, 1, c) \o <<32,122,122,61,57,44>> \o SubSeq(line, c + 1, Len(line)) \o SubSeq(f, k, Len(f))
 DropZZ(opts) == SelectSeq(opts, LAMBDA o : o.k # <<122,122>>)
 Unknown ==
-  (rs.status = "running" /\ rs.pos <= Len(file) /\ file[rs.pos] = 35) =>
+  (phase = "read" /\ rs.status = "running" /\ rs.pos <= Len(file) /\ file[rs.pos] = 35) =>
     \A atEnd \in BOOLEAN :
       LET f2 == InsertOpt(file, rs.pos, atEnd)
           a == ReadFile(file, CMap)  b == ReadFile(f2, CMap)
